@@ -203,6 +203,15 @@ _PATCH_NOTES = {
     "OE3": "read handlers: builder held in a local, statement by statement", "OE4": "bin/lib: build_server() and header-middleware helpers",
     "OF1": "core: snapshot walk as while loop (De Morgan), match", "OF2": "core: one match in a private for_snapshot()", "OF3": "core: private ParentCheck enum for both operations",
     "OF4": "inmemory: key() helper, match instead of if-let",
+    "PA1": "core: one match in a private for_snapshot()", "PA2": "sqlite: helper parameter dropped, row mapper as named method", "PA3": "inmemory: Default, let-else, get_version_by_parent delegates to get_version",
+    "PA4": "api: shared read_body(payload, max, msg) helper", "PB1": "api: shared read_body helper (variant)", "PB2": "add_version: plain retry loop, response helper",
+    "PB3": "core: for_snapshot() helper (variant)", "PB4": "sqlite: helper parameter dropped, direct returns, three-arm match", "PC1": "inmemory: two bools -> private TxnState enum, Default",
+    "PC2": "sqlite: private ClientRow + impl From<ClientRow> for Client", "PC3": "add_version: private extension trait for the header value", "PC4": "bin: impl From<&ServerArgs> for ServerConfig",
+    "PD1": "core: single-expression get_child_version, merged matches, match with None first", "PD2": "inmemory: if/else instead of early returns, Drop split", "PD3": "sqlite: hoisted query list, regrouped tuple, inverted check",
+    "PD4": "api: missing header first, guarded match, reordered disjoint arms", "PE1": "core: SnapshotUrgency moved to a private module urgency.rs", "PE2": "sqlite: StoredUuid moved to stored_uuid.rs",
+    "PE3": "api: header constants and error converters moved to submodules", "PE4": "bin: command()/ServerArgs moved into mod args", "PF1": "sqlite: schema loop as try_for_each over an array; hyphenated().to_string()",
+    "PF2": "bin: allow-list built by a loop, map(Clone::clone), try_fold", "PF3": "add_version: loop/match over the stream, hyphenated()/format! header values",
+    "PF4": "core: snapshot walk as `for remaining in (0..N).rev()` with a found flag",
 }
 for _p in sorted(_glob.glob(_os.path.join(_PD, "*.diff"))):
     _n = _os.path.basename(_p)[:-5]
